@@ -62,17 +62,34 @@ Call == /\ l <= Len(Trace) /\ Ev.op \notin {"New", "Grow", "Window"}
 \* Scenarios around the UNDERLYING buffer, recorded as one summary line each:
 \*  Grow     blocks were arranged/freed through one Blocks object before AND after its buffer was grown; a second
 \*           allocator opened on the grown bytes must see exactly the blocks handed out and not freed (want) and
-\*           Available = Count - |those|: the allocation state lives in the bytes, not in the object;
+\*           Available = Count - |those|: the allocation state lives in the bytes, not in the object; the live
+\*           object's own accounting still adds up (whatever it makes of the grown buffer, its Available is its
+\*           Count minus the blocks it has handed out), and it never handed out an index twice (dup);
+\*           in the "-full" variants it was exhausted before its buffer grew by whole segments;
 \*  Window   a memory-mapped file was opened once through a window SHORTER than the file and closed again; the
 \*           file keeps its length and an allocator opened on the whole file afterwards still sees every block.
+\*  Bulk     n blocks (more than 8 * page) were arranged in a fresh one-segment allocator whose block size is three
+\*           pages: every call succeeded with a new index (errs = dups = 0), Available = Count - n; then `freed`
+\*           of them were released once (a second release failed: refree = 0), Available followed, and a second
+\*           allocator over the same bytes reports that Available and exactly the blocks still held (mismatch = 0).
+Bulk == /\ l <= Len(Trace) /\ Ev.op = "Bulk"
+        /\ ~Has(Ev, "crash")
+        /\ ~Ev.skipped => /\ Ev.errs = 0 /\ Ev.dups = 0 /\ Ev.refree = 0 /\ Ev.mismatch = 0
+                          /\ Ev.n <= Ev.count
+                          /\ Ev.avail = Ev.count - Ev.n
+                          /\ Ev.avail2 = Ev.count - Ev.n + Ev.freed
+                          /\ Ev.reopen_avail = Ev.avail2
+        /\ UNCHANGED <<alloc, cnt>> /\ l' = l + 1
+
 Scenario == /\ l <= Len(Trace) /\ Ev.op \in {"Grow", "Window"}
             /\ ~Has(Ev, "crash")
             /\ ToSet(Ev.got) = ToSet(Ev.want)
             /\ Ev.avail = Ev.count - Cardinality(ToSet(Ev.want))
             /\ Ev.op = "Window" => Ev.filelen = Ev.wantlen
+            /\ Ev.op = "Grow" => (~Ev.dup /\ Ev.live_avail = Ev.live_count - Cardinality(ToSet(Ev.want)))
             /\ UNCHANGED <<alloc, cnt>> /\ l' = l + 1
 
-Next == New \/ Call \/ Scenario
+Next == New \/ Call \/ Scenario \/ Bulk
 Spec == Init /\ [][Next]_<<alloc, cnt, l>>
 Accepted == AcceptByDiameter
 =============================================================================
